@@ -105,6 +105,12 @@ func lower(s string) string {
 func validCreateTable(ct sql.CreateTableStmt) error {
 	cols := map[string]struct{}{}
 	for _, c := range ct.Columns {
+		if lower(c.Type) == "as" {
+			// `b AS (1)` is a generated column, which is not stored in
+			// the rows (and nothing we can evaluate). The grammar reads it
+			// as a column of type AS(1).
+			return ErrInvalidDef
+		}
 		n := lower(c.Name)
 		if _, ok := cols[n]; ok {
 			return ErrInvalidDef
